@@ -667,11 +667,20 @@ def _contains(token: Token, left: object, right: object) -> bool:
     if not is_truthy(left) or not is_truthy(right):
         return False
     if isinstance(left, str):
-        return str(right) in left
+        try:
+            return str(right) in left
+        except ValueError as err:
+            # An integer with more digits than Python is willing to convert.
+            raise LiquidTypeError(str(err), token=token) from err
     if isinstance(left, (list, tuple)):
         return any(_eq(item, right) for item in left)
     if isinstance(left, Collection):
-        return right in left
+        try:
+            return right in left
+        except TypeError:
+            # An unhashable right-hand side can't be a key of a mapping or
+            # a member of a set.
+            return False
 
     raise LiquidTypeError(
         f"'in' and 'contains' are not supported between '{left.__class__.__name__}' "
